@@ -4,6 +4,10 @@
 import LpModel.C20
 import LpProofs.C20.Units
 import LpProofs.C20.IO
+-- coverage extension (Time_Display, Reduced_Mass, Formatted_String, Check_For_Warning, File_Exists, operator<<,
+-- Save_Function, Interpolation_2D()): the property theorems live in these two modules
+import LpProofs.C20.Cover
+import LpProofs.C20.Cover2
 namespace Lp.C20
 
 /-! ## Initialisation order -/
